@@ -1,7 +1,8 @@
 (* C06 driver: one case per input line, one result line per case (formats: see props/C06.py).
-   argv[1] = cases, argv[2] = "-" (unused), argv[3] = variant: repaired | def_restore (| defective | lns_found: historical) *)
+   argv[1] = cases, argv[2] = "-" (unused), argv[3] = variant: repaired | def_rguard (| defective | lns_found | def_restore: historical) *)
 let flags_of = function
-  | "def_restore" -> def_restore
+  | "def_rguard" -> def_rguard
+  | "def_restore" -> def_restore      (* historical: before 8205ad2 *)
   | "defective" -> defective          (* historical: pkg/ppp + PPPoE before 54fb851 / 95b0af2 / bc32486 *)
   | "lns_found" -> lns_found          (* historical: LNS before ce9ad2f *)
   | _ -> repaired
@@ -146,13 +147,14 @@ let () =
             else if ev.[0] = 'S' then EvStale
             else if ev.[0] = 't' then EvTermReq (n_of_int (int_of_string tl))
             else if ev = "o" then EvStoppingTimeout
+            else if ev = "D" then EvDown
             else if ev.[0] = 'R' then (let (a, al, rs) = split3 tl in EvReauth (aaa_of a, orc_of al rs))
             else
               let i = String.index ev '.' in
               EvReq (n_of_int (int_of_string (String.sub ev 1 (i - 1))),
                      unhex (String.sub ev (i + 1) (String.length ev - i - 1))) in
           let (s', acts) = sess_step fl s e in
-          (Printf.sprintf "%s up=%d a=%s pa=%s" (show_acts ~callbacks:false ~req:(Some s'.s_lastreq) acts) (if s'.s_open then 1 else 0) (show_addr s'.s_addr) (show_addr s'.s_cfg.ic_assigned) :: acc, s'))
+          (Printf.sprintf "%s up=%d a=%s pa=%s pn=%s" (show_acts ~callbacks:false ~req:(Some s'.s_lastreq) acts) (if s'.s_open then 1 else 0) (show_addr s'.s_addr) (show_addr s'.s_cfg.ic_assigned) (show_addr s'.s_peer.pp_addr) :: acc, s'))
           ([first], s0) evs in
       print_endline (String.concat " | " (List.rev outs))
     | "s6" :: mac :: evs ->
@@ -179,6 +181,7 @@ let () =
             | 'n' -> V6Nak (unhex tl)
             | 'j' -> V6Rej (unhex tl)
             | 'R' -> V6Start m
+            | 'D' -> V6Down
             | _ -> failwith "ev" in
           let (s', acts) = v6sess_step s e in (show s' acts :: acc, s')) ([show s1 a1], s1) evs in
       print_endline (String.concat " | " (List.rev outs))
